@@ -23,8 +23,8 @@ SUPPORTED_MAX_ONNX_OPSET = 25
 SUPPORTED_MIN_ONNX_OPSET = 18
 
 
-def _get_onnx_opset_version(model: ir.Model) -> int | None:
-    """Get the ONNX opset version imported by the model."""
+def _get_onnx_opset_version(model: ir.Model | ir.Function) -> int | None:
+    """Get the ONNX opset version imported by the model or function."""
     model_version1 = model.opset_imports.get("")
     model_version2 = model.opset_imports.get("ai.onnx")
     if model_version1 is not None and model_version2 is not None:
@@ -346,11 +346,20 @@ class _VersionConverter:
                     )
 
     def visit_model(self, model: ir.Model) -> None:
-        self._default_onnx_opset = _get_onnx_opset_version(model)
+        model_opset = _get_onnx_opset_version(model)
+        # The nodes of a function are written for the opset the function imports,
+        # which need not be the one the model imports.
+        function_opsets = [
+            _get_onnx_opset_version(function) or model_opset
+            for function in model.functions.values()
+        ]
+        self._default_onnx_opset = model_opset
         self.visit_graph_or_function(model.graph)
-        for function in model.functions.values():
+        for function, function_opset in zip(model.functions.values(), function_opsets):
+            self._default_onnx_opset = function_opset
             self.visit_graph_or_function(function)
             _set_onnx_opset_version(function, self._target_version)
+        self._default_onnx_opset = model_opset
         _set_onnx_opset_version(model, self._target_version)
         if self._modified:
             # TapeBuilder may create values with names that clash with existing graph
